@@ -112,7 +112,7 @@ func (e *Evidence) finish() {
 	}
 	c["samples"] = e.samples
 	c["harnesses"] = e.harness
-	c["solver"] = "z3 4.8.12 via one incremental `z3 -in` process per worker (push/pop along the DFS)"
+	c["solver"] = "z3 5.1.0 (z3-new -in), one incremental process per worker, push/pop along the DFS; 4.8.12 and cvc5 selectable for cross-checks"
 	c["explanation"] = "states = symbolic paths completed; transitions = SSA instructions executed symbolically; obligations = vrt.Assert and implicit run-time checks reached on feasible paths, each decided by a solver query path-condition AND NOT assertion (discharged = unsat); traces_validated_against_impl = solver models (reachability witnesses and counterexamples) replayed natively against the real build."
 	// functions encoded: klevdb code and library code executed from SSA
 	type fe struct {
